@@ -188,7 +188,10 @@ T &vector<T, Allocator>::push(T &&element) {
 template<typename T, typename Allocator>
 template<typename... Args>
 T &vector<T, Allocator>::emplace_back(Args &&... args) {
-	_ensure_capacity(_size + 1);
+	// As in push(): the arguments may refer to our own elements.
+	if(_size == _capacity)
+		return push(T(std::forward<Args>(args)...));
+
 	T *pointer = new(&_elements[_size]) T(std::forward<Args>(args)...);
 	_size++;
 	return *pointer;
